@@ -1041,6 +1041,7 @@ func checkMCPConfinement(c *Ctx, m *mcpModel, rule string) {
 	// (a) each resolver returns a caller-supplied value only behind equality with the configured one
 	for _, r := range sortedFuncs(res) {
 		nPaths, nArg := 0, 0
+		r := p.View(r) // a resolver may share its argument handling with its siblings through a helper
 		for _, pa := range enumeratePaths(r.Blocks[0], 2000) {
 			if len(pa.Ret.Results) != 2 || !isNilConst(pa.Ret.Results[1]) {
 				continue
